@@ -409,6 +409,12 @@ func TestC04_S1Burst(t *testing.T) {
 func TestC05_S1Burst(t *testing.T) { s1Main(t, burstSpec("C05", "S1Burst", vh.FBook, false)) }
 func TestC06_S1Burst(t *testing.T) { s1Main(t, burstSpec("C06", "S1Burst", vh.FEvents, false)) }
 
+// C16, cache-level clause ("no cache write is forgotten by the eviction and expiration policies"): the burst
+// scripts make writers hit a full write buffer, so the refused-offer fallback carries the event itself.
+func TestC16_S1Burst(t *testing.T) {
+	s1Main(t, burstSpec("C16", "S1Burst", vh.FBook|vh.FEvents|vh.FBound, false))
+}
+
 // ---- C17, cache-level clause: dropping reads never changes what an operation returns ---------------------
 
 func TestC17_S1ReadBursts(t *testing.T) {
